@@ -389,7 +389,16 @@ def separators(run, m, F, E, L):
                 outs = I.run(I.start(f, [PtrV(ret), PtrV(this), sep, cs], st))
                 problems, und = [], []
                 nfound = nmiss = 0
+                seen_oob = set()
                 for o in outs:
+                    # whatever the member looks like: every read of the string's storage on every explored path stays inside it
+                    for e in o.st.events:
+                        if e[0] in ('oob', 'oob?') and isinstance(e[3], PtrV) and e[3].obj == entry['storage'].obj and e[1].id not in seen_oob:
+                            env = e[6] if len(e) > 6 else None
+                            if e[0] == 'oob' or env is not None:
+                                seen_oob.add(e[1].id)
+                                problems.append('reads %r byte(s) at offset %r of the %r-byte string (line %d)%s' %
+                                                (e[4], e[3].off - entry['storage'].off, entry['size'], e[1].line, '; witness ' + own.fmt_env(env) if env else ''))
                     if o.kind != 'ret':
                         if o.kind == 'abort':
                             problems.append('aborts')
